@@ -61,16 +61,42 @@ def wf_violations(w: GW.World) -> list[str]:
     return out
 
 def mirror_violations(w: GW.World) -> list[str]:
-    """C11: attacker.reached_attack_steps and node.compromised_by mirror each other."""
+    """C11: attacker.reached_attack_steps and node.compromised_by mirror each other — for every attacker and node
+    object the history created, whether or not it is (still) part of the graph."""
     g = w.graph
     out = []
-    for n in g.nodes:
+    for n in w.nodes:
         for a in n.compromised_by:
-            if not _is(a, g.attackers): out.append(f'{n.full_name} lists an attacker that is not in the graph')
-            elif not _is(n, a.reached_attack_steps): out.append(f'{n.full_name} lists {a.name} but is not reached by it')
-    for a in g.attackers:
+            if _is(n, g.nodes) and not _is(a, g.attackers):
+                out.append(f'{n.full_name} lists an attacker that is not in the graph')
+            if not _is(n, a.reached_attack_steps): out.append(f'{n.full_name} lists {a.name} but is not reached by it')
+        if len({id(a) for a in n.compromised_by}) != len(n.compromised_by):
+            out.append(f'{n.full_name} lists an attacker twice')
+    for a in w.atts:
         for n in a.reached_attack_steps:
             if not _is(a, n.compromised_by): out.append(f'{a.name} reached {n.full_name} which does not list it')
+        if len({id(n) for n in a.reached_attack_steps}) != len(a.reached_attack_steps):
+            out.append(f'{a.name} lists a node as reached twice')
+    return out
+
+def attach_violations(w: GW.World, infos, before: int, names_before: dict) -> list[str]:
+    """C11: one new graph attacker per model attacker; entry points = reached = the existing nodes named."""
+    out = []
+    new = w.graph.attackers[before:]
+    if len(new) != len(infos):
+        return [f'attach_attackers created {len(new)} attackers for {len(infos)} model attackers']
+    for a, (name, eps) in zip(new, infos):
+        exp = []
+        for an, steps in eps:
+            for stp in steps:
+                n = names_before.get(an + ':' + stp)
+                if n is not None and not _is(n, exp):
+                    exp.append(n)
+        if a.name != name: out.append('attached attacker has the wrong name')
+        if len(a.reached_attack_steps) != len(exp) or any(x is not y for x, y in zip(a.reached_attack_steps, exp)):
+            out.append('reached steps of an attached attacker are not the existing nodes named by its entry points')
+        if len(a.entry_points) != len(exp) or any(x is not y for x, y in zip(a.entry_points, exp)):
+            out.append('entry points of an attached attacker are not the existing nodes named by the model')
     return out
 
 
@@ -291,6 +317,11 @@ def run_with_predicates(pid, impl, ops, per_case_timeout=10):
                 touched = [op[j] for j in HANDLE_ARGS.get(k, [])]
                 if k in HANDLE_ARGS and all(h >= boundary[0] for h in touched) or k in ('calc', 'prune', 'remove_att'):
                     pre = w.obs()
+            if pid == 'C11' and k == 'attach':
+                pre = (len(w.graph.attackers), dict(w.graph._full_name_to_node))
+            if pid == 'C14' and k == 'copy':
+                pre = (w.graph, w.graph._to_dict(), w.graph.next_node_id, w.graph.next_attacker_id,
+                       sorted(w.graph._id_to_node), sorted(w.graph._full_name_to_node), sorted(w.graph._id_to_attacker))
             oc, ret = w.apply(op)
             outs.append([oc, ret])
             if pid == 'C08' and k == 'calc' and oc == 0:
@@ -306,6 +337,9 @@ def run_with_predicates(pid, impl, ops, per_case_timeout=10):
             elif pid == 'C11':
                 for m in mirror_violations(w):
                     viol.append((i, m))
+                if k == 'attach' and oc == 0:
+                    for m in attach_violations(w, op[1], pre[0], pre[1]):
+                        viol.append((i, m))
             elif pid == 'C12' and oc == 0 and k.startswith('q_'):
                 if w.obs() != pre:
                     viol.append((i, f'{k} changed the graph'))
@@ -335,6 +369,13 @@ def run_with_predicates(pid, impl, ops, per_case_timeout=10):
                 if k == 'copy' and oc == 0:
                     boundary = (len(w.nodes) - len(w.graph.nodes), len(w.atts) - len(w.graph.attackers))
                     for al in w.aliased(): viol.append((i, f'mutable data shared between nodes {al}'))
+                    g2 = w.graph
+                    if g2._to_dict() != pre[1]: viol.append((i, 'the copy does not serialize like the original'))
+                    if (g2.next_node_id, g2.next_attacker_id) != (pre[2], pre[3]): viol.append((i, 'the copy has different id counters'))
+                    if (sorted(g2._id_to_node), sorted(g2._full_name_to_node), sorted(g2._id_to_attacker)) != (pre[4], pre[5], pre[6]):
+                        viol.append((i, 'the copy answers different lookups'))
+                    if g2.model is not pre[0].model or g2.lang_graph is not pre[0].lang_graph:
+                        viol.append((i, 'the copy does not share the model / the language'))
                     for m in wf_violations(w): viol.append((i, 'copy: ' + m))
                 elif pre is not None and boundary is not None:
                     post = w.obs()
